@@ -77,3 +77,13 @@ Fixpoint token_lines (line : N) (toks : list (list N)) : list N :=
   | [] => []
   | t :: r => line :: token_lines (line + count_nl t) r
   end.
+
+(* ---- parser errors over token streams (lexer.TokenStream.expect, parser.Parser.fail) *)
+Record token := mkTok { t_line : N; t_eof : bool }.      (* lineno; type is TOKEN_EOF *)
+Inductive presult := PNext | PSyntaxError (line : N).
+(* TokenStream.expect(expr): [matches] = self.current.test(expr) *)
+Definition expect (current : token) (matches : bool) : presult :=
+  if matches then PNext else PSyntaxError (t_line current).
+(* Parser.fail(msg, lineno=None) *)
+Definition fail (current : token) (lineno : option N) : presult :=
+  PSyntaxError (match lineno with Some l => l | None => t_line current end).
